@@ -28,7 +28,13 @@ pub enum Mode {
     Bounds,
 }
 
+/// largest term (nodes, before placement) whose executions are repeated under the recording tracker
+static TRACE_MAX_TERM: std::sync::atomic::AtomicUsize = std::sync::atomic::AtomicUsize::new(usize::MAX);
+
 fn run_c05(ctx: &Ctx, out: &mut Out) {
+    // thorough: the 5-node terms over T_3 (6.9e8 programs) are judged on output and verdict only; every term of the
+    // quick tier's size is traced there too, over the larger type universe
+    TRACE_MAX_TERM.store(ctx.tier.pick(usize::MAX, 4), std::sync::atomic::Ordering::Relaxed);
     drive(ctx, out, Mode::Semantics);
 }
 
@@ -98,7 +104,7 @@ pub fn check_program(b: &mut Builder, t: &Rc<Term>, p: Place, inputs: &[Rc<RV>],
                     (Ok(got), Err(e)) => return Err(("exec:succeeds-but-semantics-fail".into(), format!("input {input}: machine returns {got}, semantics fail with {e:?}"))),
                     (Err(a), Ok(want)) => return Err(("exec:fails-but-semantics-succeed".into(), format!("input {input}: machine fails with {a:?}, semantics give {want}"))),
                 }
-                if input_ix % trace_stride != 0 {
+                if input_ix % trace_stride != 0 || t.size() > TRACE_MAX_TERM.load(std::sync::atomic::Ordering::Relaxed) {
                     continue;
                 }
                 // intermediate states: every node visit the machine reports to a tracker, against the traced semantics
